@@ -782,4 +782,41 @@ Proof.
     rewrite E. reflexivity. }
   destruct (enumerations rf) as [_ [_ [_ [_ [V _]]]]]. eexists. exact (V s).
 Qed.
+(* ------------------------------------------------------------------ sequences of writes (unbounded in length) *)
+Lemma opt_name_eqb_spec : forall a b, opt_name_eqb a b = true <-> a = b.
+Proof. intros a b. apply (opt_str_eqb_spec a b). Qed.
+Lemma last_write_acc : forall m ops a,
+  last_write c m ops a = match last_write c m ops None with Some x => Some x | None => a end.
+Proof.
+  intros m ops. induction ops as [|[n v] r IH]; intro a; [reflexivity|].
+  cbn [last_write]. destruct (opt_name_eqb (memoize c n) (memoize c m)).
+  - rewrite (IH (Some v)). destruct (last_write c m r None); reflexivity.
+  - apply IH.
+Qed.
+Lemma write_sequence : forall ops rf,
+  exists rf', apply_writes c rf ops = Ret rf' /\
+    forall m, In m (accepted c) ->
+      get_always c rf' m = match last_write c m ops None with Some v => Ret v | None => get_always c rf m end.
+Proof.
+  induction ops as [|[n v] r IH]; intro rf.
+  - exists rf. split; [reflexivity|]. intros m _. reflexivity.
+  - cbn [apply_writes last_write]. destruct (mem n (accepted c)) eqn:E.
+    + apply mem_In in E. destruct (set_get n E rf v) as [l [_ [_ [S [_ [_ [_ [Same Other]]]]]]]].
+      rewrite S. cbn [obind]. destruct (IH (upd rf l v)) as [rf' [A G]]. exists rf'. split; [exact A|].
+      intros m Hm. rewrite (G m Hm).
+      destruct (opt_name_eqb (memoize c n) (memoize c m)) eqn:Q.
+      * rewrite (last_write_acc m r (Some v)). destruct (last_write c m r None) as [x|]; [reflexivity|].
+        apply opt_name_eqb_spec in Q. apply Same; [exact Hm | symmetry; exact Q].
+      * destruct (last_write c m r None) as [x|]; [reflexivity|].
+        apply Other; [exact Hm|]. intro X. rewrite X in Q.
+        assert (Y : opt_name_eqb (memoize c n) (memoize c n) = true) by (apply opt_name_eqb_spec; reflexivity).
+        rewrite Y in Q. discriminate.
+    + pose proof (not_accepted_unknown n (not_mem_accepted n E)) as M.
+      destruct (unknown_absent n M) as [_ [R _]]. rewrite (R rf v). cbn [obind].
+      destruct (IH rf) as [rf' [A G]]. exists rf'. split; [exact A|].
+      intros m Hm. rewrite (G m Hm).
+      destruct (opt_name_eqb (memoize c n) (memoize c m)) eqn:Q; [|reflexivity].
+      exfalso. apply opt_name_eqb_spec in Q. rewrite M in Q.
+      pose proof (f_acc_memo c F m Hm) as Sm. rewrite <- Q in Sm. discriminate.
+Qed.
 End WithFacts.
